@@ -2043,7 +2043,17 @@ def cache_stage(ctx):
                         repeated_across_mutation = True
                     seen_at[tag] = nmut
             except Exception as e:
-                ctx.violation("Circuit:cache_program:raised", f"{type(e).__name__}: {e}", {"N": N, "ops": descr})
+                last = history[-1] if history else None
+                key = "Circuit:cache_program:raised"
+                # the exact simulator's known 0/0 defect (an exactly zero amplitude under norm equalisation) is the same
+                # genuine finding the main oracle reports - same key, so that it is recognised, not a new alarm
+                try:
+                    if (isinstance(e, ZeroDivisionError) and last is not None and last.get("qk") == "amplitude"
+                            and abs(np.asarray(circ.copy().to_dense()).ravel()[int(last["b"], 2)]) < 1e-12):
+                        key = "Circuit.amplitude:zero_amplitude:nan_or_ZeroDivisionError"
+                except Exception:  # noqa: BLE001
+                    pass
+                ctx.violation(key, f"{type(e).__name__}: {e}", {"N": N, "ops": descr, "failing_query": last})
                 break
             try:
                 ev = "[" + "; ".join(f"({key_lit(k, which == 'cond')}, {blit(h)})" for k, h, which in log) + "]"
